@@ -33,7 +33,13 @@ EXPLANATION = (
     "(`prefix, _, suffix = <param>.name.rpartition('.')`, bound once) on a "
     "path whose condition contains `prefix == 'typing'/'typing_extensions'` "
     "(enclosing tests or negated earlier early exits, in whichever method "
-    "the call sits); R5.3 each "
+    "the call sits); when the helper takes the name itself "
+    "(`prefix, _, suffix = <param>.rpartition('.')`, parameter never rebound) "
+    "the same holds provided the helper is defined once in PrintVisitor's "
+    "local MRO, is mentioned only as the callee of `self.<helper>(...)` "
+    "calls and every such call passes `<param>.name` of its own method (or, "
+    "one level further, its own such parameter); otherwise R5.2 refuses; "
+    "R5.3 each "
     "decorator the printer emits for a method kind/flag is the spelling the "
     "reader maps back to that same kind/flag: the decorator text is the local "
     "VisitFunction writes immediately before `def `, its `+=` sites are "
@@ -102,6 +108,11 @@ EXPLANATION = (
     "VisitClass the analysis cannot evaluate are taken to be independent of "
     "the members unless they mention them (then: analysis error).")
 ASSUMPTIONS = [
+    "R5.2: a private PrintVisitor helper is reached only through "
+    "`self.<helper>(...)` calls inside pytd/printer.py (any other mention of "
+    "its name in that file - attribute, bare name or string constant - makes "
+    "the rule refuse); `<param>.name` of a printer method is a printed "
+    "node's own name, as in today's VisitNamedType",
     "node classes are dispatched by exact class name (parse/node.py: visitors "
     "for superclasses are not triggered), so a missing Visit<Class> leaves a "
     "node unprinted",
@@ -425,6 +436,65 @@ def r5_1(ctx):
 
 # -- R5.2 ------------------------------------------------------------------------
 
+def _is_printed_node_name(pmod, fn, expr, depth):
+  """`expr`, evaluated in `fn`, is the `.name` of a node handed to a printer
+  method: either `<param>.name` for a parameter of `fn` itself, or a parameter
+  of `fn` that is never rebound where `fn` is a same-class helper (defined once
+  in PrintVisitor's local MRO, referenced only as the callee of
+  `self.<fn>(...)` calls, at least one) and EVERY such call passes, for that
+  parameter, an expression that is itself a printed node's name in the caller
+  (at most `depth` levels).  Anything else: False (the caller refuses)."""
+  if isinstance(fn, ast.Lambda):
+    return False
+  a = fn.args
+  plain = [x.arg for x in (a.posonlyargs + a.args)[1:]]
+  if isinstance(expr, ast.Attribute) and expr.attr == "name" and \
+      isinstance(expr.value, ast.Name) and expr.value.id in plain:
+    return True
+  if not (isinstance(expr, ast.Name) and expr.id in plain) or depth <= 0:
+    return False
+  if a.vararg is not None or a.kwarg is not None:
+    return False
+  if any(isinstance(n, ast.Name) and n.id == expr.id and not isinstance(n.ctx, ast.Load)
+         for n in ast.walk(fn)) or \
+      any(isinstance(n, (ast.Global, ast.Nonlocal)) for n in ast.walk(fn)):
+    return False
+  scopes = [pmod.classes[c] for c in local_mro(pmod, "PrintVisitor")]
+  defs = [st for cd in scopes for st in cd.body
+          if isinstance(st, (ast.FunctionDef, ast.AsyncFunctionDef)) and st.name == fn.name]
+  if len(defs) != 1 or defs[0] is not fn or fn.decorator_list:
+    return False
+  # every mention of the helper's name in the module is `self.<fn>(...)`
+  call_funcs = {id(c.func): c for cd in scopes for c in _self_calls(cd, fn.name)}
+  for n in ast.walk(pmod.tree):
+    if isinstance(n, ast.Attribute) and n.attr == fn.name and id(n) not in call_funcs:
+      return False
+    if isinstance(n, ast.Name) and n.id == fn.name:
+      return False
+    if isinstance(n, ast.Constant) and n.value == fn.name:
+      return False        # getattr(self, "<fn>") and the like
+  if not call_funcs:
+    return False
+  pos = ([x.arg for x in a.posonlyargs + a.args]).index(expr.id) - 1
+  posonly = len(a.posonlyargs) - 1
+  for c in call_funcs.values():
+    if any(isinstance(x, ast.Starred) for x in c.args) or \
+        any(k.arg is None for k in c.keywords):
+      return False
+    if pos < len(c.args):
+      passed = c.args[pos]
+    else:
+      kws = [k.value for k in c.keywords if k.arg == expr.id]
+      if len(kws) != 1 or pos < posonly:
+        return False
+      passed = kws[0]
+    caller = pmod.enclosing_function(c)
+    if caller is None or caller is fn or \
+        not _is_printed_node_name(pmod, caller, passed, depth - 1):
+      return False
+  return True
+
+
 def _forwarded_typing_call_ok(pmod, call):
   """`self._FromTyping(suffix)` under a typing prefix: the member name is the
   last component of a printed node's own name `typing.<suffix>` /
@@ -432,7 +502,9 @@ def _forwarded_typing_call_ok(pmod, call):
 
   Recognised in any method (the body of VisitNamedType may live in a helper):
   `suffix` is bound exactly once in the enclosing function, by
-  `prefix, _, suffix = <param>.name.rpartition(".")`, and the path condition
+  `prefix, _, suffix = <param>.name.rpartition(".")` - or `<param>.rpartition(".")`
+  when every caller of the helper passes such a `.name`, see
+  _is_printed_node_name - and the path condition
   of the call (enclosing tests and negated earlier early exits) contains a
   positive `prefix == "typing"` / `"typing_extensions"`.  Returns the prefix
   literal, or None when the call is not of that shape."""
@@ -457,8 +529,8 @@ def _forwarded_typing_call_ok(pmod, call):
           and not b.value.keywords
           and isinstance(b.value.func, ast.Attribute)
           and b.value.func.attr == "rpartition"
-          and dotted(b.value.func.value) in {f"{p}.name" for p in params}
-          and _const_str(b.value.args[0]) == "."):
+          and _const_str(b.value.args[0]) == "."
+          and _is_printed_node_name(pmod, fn, b.value.func.value, 2)):
     return None
   prefix = b.targets[0].elts[0].id
   # the prefix local must not be rebound either
@@ -3066,6 +3138,22 @@ VARIANTS = [
      "patch": "benign/C05-r2/with_forwarded_suffix_without_typing_guard.diff", "expect": "error"},
     {"name": "r2-conditional-ctor-name-typo", "rule": "R5.2",
      "patch": "benign/C05-r2/with_defect_ctor_typo.diff", "expect": "fire"},
+    # R5.2: VisitNamedType split into same-class helpers taking the node's name
+    # (early-return form); the forwarded suffix is accepted only with the typing
+    # guard and only while every caller of the helper passes `<param>.name`
+    {"name": "twin-benign-C05-b3r1-named-type-split-into-name-helpers", "rule": "R5.2",
+     "patch": "benign/C05-b3r1/patch.diff", "expect": "silent"},
+    {"name": "b3r1-forwarded-suffix-without-typing-guard", "rule": "R5.2",
+     "patch": "benign/C05-b3r1/with_forwarded_suffix_without_typing_guard.diff",
+     "expect": "error"},
+    {"name": "b3r1-typing-guard-inverted-before-early-return", "rule": "R5.2",
+     "patch": "benign/C05-b3r1/with_typing_guard_after_early_return_inverted.diff",
+     "expect": "error"},
+    {"name": "b3r1-second-caller-passes-other-text", "rule": "R5.2",
+     "patch": "benign/C05-b3r1/with_second_caller_passing_other_text.diff",
+     "expect": "error"},
+    {"name": "b3r1-helper-rebinds-name-parameter", "rule": "R5.2",
+     "patch": "benign/C05-b3r1/with_helper_parameter_rebound.diff", "expect": "error"},
     # R5.8: constructor chosen by a conditional expression
     {"name": "twin-ctor-name-as-conditional-argument", "rule": "R5.8", "file": PRINTER,
      "expect": "silent",
